@@ -176,6 +176,18 @@ fn miri_start(_argc: isize, _argv: *const *const u8) -> isize {
                 regs[parse_reg(t[1])] = make(t[2], None, Some(c));
                 let _ = writeln!(o, "OK");
             }
+            "clonefrom" => {
+                let (a, b) = (parse_reg(t[1]), parse_reg(t[2]));
+                let src = regs[b].clone();
+                match (&mut regs[a], &src) {
+                    (H::P(x), H::P(y)) => x.clone_from(y),
+                    #[cfg(all(target_family = "wasm", target_feature = "simd128"))]
+                    (H::W(x), H::W(y)) => x.clone_from(y),
+                    (H::D(x), H::D(y)) => x.clone_from(y),
+                    _ => panic!("clonefrom types"),
+                }
+                let _ = writeln!(o, "OK");
+            }
             "clone" => {
                 let c = regs[parse_reg(t[2])].clone();
                 regs[parse_reg(t[1])] = c;
